@@ -45,7 +45,7 @@ def compositions(n):
 class C06(Check):
     ID = 'C06'
     LEVEL = 'exploration'
-    BUDGET = {'quick': 30, 'thorough': 240}
+    BUDGET = {'quick': 75, 'thorough': 240}
     RULE = ('case = (predicate, stream, parent context). Box: EVERY composition of n <= 9 (quick) / 11 (thorough) into run lengths, runs drawn from 3 predicate '
             'blocks so a value can come back later (A,B,A = three segments), x 5 predicates returning fresh equal-but-not-identical objects (int, 1-tuple, str, '
             'int > 2^40, int > 2^53 whose neighbours round to the same double, float, numpy.int64 / numpy.float64 (whose != returns numpy.bool_), bool, None / int mix, negative ints, parity); then random long inputs under group_by with interleaved keys, nested in roll (w != s, w == s), split, time_split, group_by>roll. '
